@@ -87,7 +87,7 @@ Section B.
   Proof. apply width_nonneg. Qed.
 
   Lemma l_total_means (a r : option V) (nl : bool) (means : list V) (n : node) :
-    wf V n -> is_pm V n = true -> specs_cover V specs n -> llimits_good ->
+    wf V n -> cls_ok V n -> is_pm V n = true -> specs_cover V specs n -> llimits_good ->
     prior_count V n <= List.length means ->
     (a = None \/ r = None) ->
     (forall x, a = Some x -> l_neg_sigma V L (l_abs_width V L x) = false) ->
@@ -118,9 +118,9 @@ Section B.
     wf V n -> specs_cover V specs n -> exists n' sp, lpass (MReplace m) n = Ok (n', sp).
   Proof. apply replace_total. Qed.
 
-  Lemma l_instance_kept (bin : binop -> V -> V -> V) (md : mode V) (n n' : node) (sp : list (nat * spec V)) (args : nat -> option V) :
+  Lemma l_instance_kept (bin : binop -> V -> V -> V) (un : unop -> V -> V) (md : mode V) (n n' : node) (sp : list (nat * spec V)) (args : nat -> option V) :
     wf V n -> keeps_ids V md -> lpass md n = Ok (n', sp) ->
-    inst V bin args n' = inst V bin args n.
+    inst V bin un args n' = inst V bin un args n.
   Proof. apply instance_kept. Qed.
 End B.
 
